@@ -133,6 +133,10 @@ def default_inline(fi: FuncInfo) -> bool:
     underscore (not a dunder) is analysed inline, so that extracting a few statements into a helper - or inlining one -
     does not change what a path rule sees. Public functions stay calls (rules name them)."""
     n = fi.name
+    if fi.parent is not None and not fi.decorators:
+        # a nested function that is CALLED (directly, or as a callback the engine applies: an ExitStack callback, a partial) is part
+        # of the function that defines it - nothing outside can name it
+        return True
     if fi.cls is not None and fi.parent is None and fi.cls.name.startswith("_") and not fi.cls.name.startswith("__"):
         # a method of a private class (a small holder of state extracted from - or inlined back into - its user)
         return all(d in ("staticmethod", "classmethod", "property") for d in fi.decorators)
